@@ -291,6 +291,17 @@ def real_curves():
     return [getattr(curves, n) for n in REAL_NAMES]
 
 
+def same_length_groups():
+    """names of real curves grouped by encoded key length (curves whose keys,
+    signatures and coordinates have the same byte lengths)"""
+    return [["NIST256p", "SECP256k1", "BRAINPOOLP256r1"],
+            ["NIST192p", "BRAINPOOLP192r1"],
+            ["SECP160r1", "BRAINPOOLP160r1"],
+            ["NIST224p", "BRAINPOOLP224r1"],
+            ["NIST384p", "BRAINPOOLP384r1"],
+            ["SECP112r1", "SECP112r2", "SECP128r1"]]
+
+
 def real_params(c):
     """(p, a, b, n, h, G) of a library Curve as plain ints (constants are
     read from the library's tables; they are data, not behaviour)."""
